@@ -66,8 +66,10 @@ def run(prop: str, spec: dict, argv) -> int:
     tier = args.tier
     seed = CM.base_seed()
     n_runs = args.runs or spec["runs"][tier]
-    known, avoid, findings = CM.finding_patterns(prop)
-    all_known, _ = CM.all_open_patterns()
+    known, _own_avoid, findings = CM.finding_patterns(prop)
+    # a violation of any property ends a run, so the triggers of every open
+    # finding are avoided (in ~80 % of the runs), not only this property's
+    all_known, avoid = CM.all_open_patterns()
 
     # 1. open known findings: replay each, report if still failing
     known_lines = []
